@@ -12,6 +12,10 @@ PROGS = [
     {"nodes": [{"k": "child", "ser_size": LIMIT + 1, "body": [{"k": "step"}]}, {"k": "wait"}, {"k": "step"}]},
     {"nodes": [{"k": "child", "large": True, "body": [{"k": "child", "large": True, "body": [{"k": "step"}]}, {"k": "wfc", "polls": 2}]}, {"k": "wait"}]},
     {"nodes": [{"k": "step"}], "final_raise_large": True},
+    # errors whose MESSAGE is below the limit while the encoded response is above it (escapes, non-ASCII, envelope)
+    {"nodes": [{"k": "step"}], "final_raise_large": "escape"},
+    {"nodes": [{"k": "step"}, {"k": "wait"}], "final_raise_large": "unicode"},
+    {"nodes": [{"k": "step"}], "final_raise_large": "boundary"},
     {"nodes": [{"k": "map", "explicit_cfg": True, "large_items": [0, 1], "branches": [[{"k": "step"}], [{"k": "step"}], [{"k": "step"}]]},
                {"k": "wait"}, {"k": "step"}]},
     {"nodes": [{"k": "par", "explicit_cfg": True, "large_items": [0, 1], "cfg": {"min": 2},
